@@ -104,6 +104,9 @@ func genSysHistory(rng *proto.Rng) sysIn {
 				if rng.Chance(1, 3) {
 					o.Rev = r + 1
 				}
+				if o.MutFrom != nil && rng.Chance(1, 4) {
+					o.MutBad = true
+				}
 				run.Objs = addObj(run.Objs, o)
 				// usually bring the dependencies along
 				if rng.Chance(3, 4) {
